@@ -786,6 +786,8 @@ class Interp:
             return NativeMethod(value, name)
         if isinstance(value, (str, list, dict, tuple, set, frozenset)) or value is None and False:
             return NativeMethod(value, name)
+        if isinstance(value, (int, float)) and not isinstance(value, bool) and name in _NATIVE_METHODS.get(type(value).__name__, ()):
+            return NativeMethod(value, name)
         if isinstance(value, GenVal) and name == "close":
             return NativeMethod(value, name)
         if isinstance(value, Opaque):
@@ -880,6 +882,8 @@ class Interp:
         if isinstance(key, tuple):
             for item in key:
                 self._check_hashable(item)
+        elif isinstance(key, Opaque) and key.tag == "str" and key.parts and "composed_text_eq" in self.externals:
+            return  # the table decides equality of composed texts (hook composed_text_eq)
         elif isinstance(key, Abstract) and not isinstance(key, Atom):
             raise Undecided("abstract dictionary key %r" % (key,))
 
@@ -909,6 +913,8 @@ class Interp:
             return True
         if a is None or b is None:
             return False
+        if isinstance(a, Opaque) and isinstance(b, Opaque) and a.parts and b.parts and "composed_text_eq" in self.externals:
+            return self.externals["composed_text_eq"](self, [a, b], {})
         if isinstance(a, Opaque) or isinstance(b, Opaque):
             opaque, other = (a, b) if isinstance(a, Opaque) else (b, a)
             if opaque.tag == "str" and isinstance(other, str) and other == "" and opaque.truthy is not None:
@@ -972,6 +978,12 @@ class Interp:
         if isinstance(op, ast.NotEq):
             return not self.eq(a, b)
         if isinstance(op, ast.Is):
+            if isinstance(a, ClassRef) and isinstance(b, ClassRef):
+                return a.info is b.info  # a class is one object however often it is looked up
+            if isinstance(a, ExtRef) and isinstance(b, ExtRef):
+                return a.name == b.name
+            if isinstance(a, FuncRef) and isinstance(b, FuncRef):
+                return a.info is b.info and a.closure is b.closure if hasattr(a, "closure") else a.info is b.info
             if isinstance(a, Abstract) or isinstance(b, Abstract):
                 return a is b
             return a is b or (type(a) in (bool, type(None)) and a is b)
@@ -1424,7 +1436,20 @@ class Interp:
                 return set(items)
             return items
         if kind is ast.DictComp:
-            raise Undecided("dict comprehension")
+            result = {}
+            pair = ast.Tuple(elts=[node.key, node.value], ctx=ast.Load())
+            shim = ast.ListComp(elt=pair, generators=node.generators)
+            ast.copy_location(shim, node)
+            ast.fix_missing_locations(shim)
+            for key, value in self.eval_comprehension(shim, frame):
+                self._check_hashable(key)
+                for existing in list(result.keys()):
+                    if self.eq(existing, key):
+                        result[existing] = value
+                        break
+                else:
+                    result[key] = value
+            return result
         if kind is ast.Lambda:
             return LambdaRef(node, frame)
         if kind is ast.Starred:
@@ -1713,6 +1738,8 @@ _NATIVE_METHODS = {
         "isupper", "isspace", "isnumeric", "isdecimal", "title", "capitalize", "partition", "rpartition", "splitlines", "zfill",
         "ljust", "rjust", "center", "casefold", "swapcase", "expandtabs", "removeprefix", "removesuffix", "rfind", "index", "rindex",
     ),
+    "float": ("is_integer", "as_integer_ratio", "hex"),
+    "int": ("bit_length",),
     "list": ("append", "extend", "index", "pop", "insert", "copy", "sort", "count"),
     "dict": ("get", "keys", "values", "items", "setdefault", "update", "pop", "copy"),
     "tuple": ("index", "count"),
@@ -1785,7 +1812,7 @@ _DEFAULT_EXTERNALS = {}
 _BUILTIN_FUNCTIONS = {
     "len", "isinstance", "max", "min", "enumerate", "range", "zip", "dict", "list", "tuple", "set", "sorted", "str",
     "repr", "any", "all", "ord", "chr", "int", "next", "type", "bool", "sum", "iter", "property", "eval", "hasattr",
-    "getattr", "abs",
+    "getattr", "setattr", "abs", "round", "divmod", "frozenset", "reversed", "map", "filter",
 }
 
 
@@ -1809,6 +1836,28 @@ def _len(interp, args, kwargs):
     if hook is not None:
         return hook(interp, [value], {})
     raise Undecided("len of %r" % (value,))
+
+
+@_ext("builtins.getattr")
+def _getattr(interp, args, kwargs):
+    if len(args) < 2 or not isinstance(args[1], str):
+        raise Undecided("getattr with a name that is not a concrete text")
+    if len(args) == 2:
+        return interp.getattr(args[0], args[1])
+    try:
+        return interp.getattr(args[0], args[1])
+    except AbsRaise as raised:
+        if exc_name(raised.value) == "AttributeError":
+            return args[2]
+        raise
+
+
+@_ext("builtins.setattr")
+def _setattr(interp, args, kwargs):
+    if len(args) != 3 or not isinstance(args[1], str):
+        raise Undecided("setattr with a name that is not a concrete text")
+    interp.setattr(args[0], args[1], args[2])
+    return None
 
 
 @_ext("builtins.isinstance")
@@ -2120,6 +2169,11 @@ def _int(interp, args, kwargs):
             interp.raise_("builtins.ValueError", str(error))
     if _is_int(value):
         return value
+    if isinstance(value, float) and len(args) == 1:
+        try:
+            return int(value)
+        except (ValueError, OverflowError) as error:
+            interp.raise_("builtins." + type(error).__name__, str(error))
     hook = interp.externals.get("int")
     if hook is not None:
         return hook(interp, args, kwargs)
